@@ -87,6 +87,8 @@ pub struct Cfg {
     pub stall_max_ns: u64,
     /// virtual time that passes with every schedule point (0 = infinitely fast CPU)
     pub tick_ns: u64,
+    /// allocator fault mode (see alloc.rs): 0 system, 1 LIFO reuse, 2 quarantine + poison
+    pub alloc_mode: u8,
     /// probability (per thousand) that a compare_exchange_weak fails spuriously
     pub cas_weak_pm: u32,
     /// probability (per thousand) that a thread park returns spuriously
@@ -108,6 +110,7 @@ impl Cfg {
             stall_budget: 0,
             stall_max_ns: 0,
             tick_ns: 0,
+            alloc_mode: 0,
             cas_weak_pm: 0,
             spurious_park_pm: 0,
             io_always: false,
@@ -419,7 +422,8 @@ impl Inner {
                 let _ = write!(s, "\"{}\":{}", FAULT_NAMES[k], self.fault_counts[k]);
             }
         }
-        let _ = s.write_str("},\"probes\":{");
+        let _ = write!(s, "}},\"alloc_mode\":{},\"alloc_reused\":{}", crate::alloc::MODE.load(Ordering::Relaxed), crate::alloc::REUSED.load(Ordering::Relaxed));
+        let _ = s.write_str(",\"probes\":{");
         for (i, (n, c)) in self.probes.iter().enumerate() {
             if i > 0 {
                 let _ = s.write_char(',');
@@ -1137,6 +1141,7 @@ impl Inner {
 
 /// start the engine: the calling thread becomes simulated thread 0 and owns the baton
 pub fn init(cfg: Cfg) {
+    let cfg_alloc_mode = cfg.alloc_mode;
     let mut rng = Rng::new(cfg.seed ^ 0x5ced_u64.wrapping_mul(0x9E37_79B9_7F4A_7C15));
     let mut pct_changes = Vec::new();
     if let Strategy::Pct { depth, est_len } = cfg.strategy {
@@ -1184,6 +1189,7 @@ pub fn init(cfg: Cfg) {
         replay_out: std::env::var("VERIF_REPLAY_OUT").ok().filter(|p| !p.is_empty()).and_then(|p| std::ffi::CString::new(p).ok()),
         argv: std::env::args().skip(1).collect(),
     };
+    crate::alloc::MODE.store(cfg_alloc_mode, Ordering::Relaxed);
     set_tid(0);
     {
         let mut g = ENGINE.lock();
